@@ -542,3 +542,23 @@ func genHealthRace(rng *rand.Rand, seed int64) *Scenario {
 	sc.End = time.Duration(k+8) * h
 	return sc
 }
+
+// genAckLostTakeover: the acknowledgement of a takeover-enabled candidate's Create is lost (the write
+// was applied), its record expires and a lower-priority instance creates the key before the
+// candidate's client gives up; the candidate then preempts (C05: tokens never reappear).
+func genAckLostTakeover(rng *rand.Rand, seed int64) *Scenario {
+	h := 200 * ms
+	sc := &Scenario{Name: "acklosttakeover", Seed: seed, StoreTTL: 3 * h, Lat: map[int]LatSpec{0: {Min: 1 * ms, Max: 10 * ms}},
+		WatchMin: 1 * ms, WatchMax: 10 * ms, Sample: h / 2, NoOutside: true, MaxLat: 0}
+	a := baseInst(1, h)
+	a.Prio = 2
+	a.Takeover = true
+	b := baseInst(2, h)
+	b.Prio = 1
+	sc.Insts = []InstSpec{a, b}
+	sc.Plans = map[string]OpPlan{"1:0": {Pre: 5*ms + 1, Post: 5 * ms, Fault: "hangafter"}}
+	sc.Steps = append(sc.Steps, Step{At: 0, Kind: "start", Inst: 1})
+	sc.Steps = append(sc.Steps, Step{At: 3*h + time.Duration(rng.Intn(900))*ms, Kind: "start", Inst: 2})
+	sc.End = 5 * time.Second
+	return sc
+}
